@@ -354,11 +354,13 @@ impl Compiler {
         };
 
         // Get the target loop's try_depth
-        let target_try_depth = self
-            .loop_stack
-            .get(loop_idx)
-            .map(|ctx| ctx.try_depth as u8)
-            .unwrap_or(0);
+        let target_try_depth = Self::register_span(
+            self.loop_stack
+                .get(loop_idx)
+                .map(|ctx| ctx.try_depth)
+                .unwrap_or(0),
+            "nested try blocks",
+        )?;
 
         // Emit IteratorClose before break if this is a for-of loop
         // Also need to close iterators for any enclosing for-of loops we're breaking out of
@@ -401,11 +403,13 @@ impl Compiler {
         };
 
         // Get the target loop's try_depth
-        let target_try_depth = self
-            .loop_stack
-            .get(loop_idx)
-            .map(|ctx| ctx.try_depth)
-            .unwrap_or(0) as u8;
+        let target_try_depth = Self::register_span(
+            self.loop_stack
+                .get(loop_idx)
+                .map(|ctx| ctx.try_depth)
+                .unwrap_or(0),
+            "nested try blocks",
+        )?;
 
         if let Some(ctx) = self.loop_stack.get_mut(loop_idx) {
             if let Some(target) = ctx.continue_target {
